@@ -112,6 +112,7 @@ func runC12(c *core.Ctx) {
 		}
 	}
 	completed := true
+	mem := memTrackOn(c)
 	for si, sc := range scenarios {
 		if !c.OwnsIdx(int64(si)) {
 			continue
@@ -180,6 +181,9 @@ func runC12(c *core.Ctx) {
 					d["concurrent"] = obsKey(got[ti])
 				}
 				return d
+			}
+			if mem {
+				reportRaces(c, res, map[string]string{"config": sc.cfg.Name}, func() map[string]interface{} { return detail("data race", -1) })
 			}
 			if len(res.Panics) > 0 {
 				for _, p := range res.Panics {
